@@ -40,7 +40,7 @@ func init() {
 			// draws of c20Run: scenario(1 option) , mode, transport/type, value, code
 			return []uint32{0, uint32(idx / 65536), uint32((idx / 256) % 256), uint32(idx % 256)}, true
 		},
-		Require: []string{"company.0", "company.1", "company.2", "company.3", "company.4"},
+		Require: []string{"handler.retriedAfterRefusal", "company.0", "company.1", "company.2", "company.3", "company.4"},
 		Assume: []string{
 			"specification function written from RFC 7967: class = code>>5; suppressed iff (class 2 and value&2) or (class 4 and value&8) or (class 5 and value&16)",
 			"nothing here depends on the schedule; the property is claimed for the wire-level consequence, which only an endpoint in a (simulated) network shows",
@@ -67,16 +67,33 @@ func c20Run(e *Env) {
 		e.NonTrivial()
 	}
 
-	var refusals, handlerRuns int
+	// in a third of the cells a handler whose response was refused tries again with 5.00 (what an application does
+	// when its first answer "fails"): the second attempt is judged on its own, and the response still belongs to the request
+	retry := (int(v)+int(code))%3 == 0
+	const retryCode = byte(0xa0)
+	retrySuppressed := v&16 != 0
+	var refusals, handlerRuns, retries, retryRefusals int
 	handle := func(set func(code codes.Code) error) {
 		err := set(codes.Code(code))
+		var err2 error
+		tried := false
+		if err != nil && retry {
+			tried = true
+			err2 = set(codes.Code(retryCode))
+		}
 		e.mu.Lock()
 		handlerRuns++
 		if err != nil {
 			refusals++
 		}
+		if tried {
+			retries++
+			if err2 != nil {
+				retryRefusals++
+			}
+		}
 		e.mu.Unlock()
-		e.Notef("handler: SetResponse(%d.%02d) -> refused=%v", code>>5, code&31, err != nil)
+		e.Notef("handler: SetResponse(%d.%02d) -> refused=%v retried=%v refused-again=%v", code>>5, code&31, err != nil, tried, err2 != nil)
 	}
 	token := []byte{0x33, 0x44}
 	var w *CWorld
@@ -167,9 +184,35 @@ func c20Run(e *Env) {
 			bareAcks++
 		case bytes.Equal(m.Token, token):
 			responses++
-			if m.Code != code {
+			want := code
+			if suppressed && retry && !retrySuppressed {
+				want = retryCode // the first answer was refused and the handler answered 5.00 instead
+			}
+			if m.Code != want {
 				e.Violate("C20.R3", "response-code-differs", "response on the wire has code %d.%02d, handler set %d.%02d", m.Code>>5, m.Code&31, code>>5, code&31)
 			}
+		}
+	}
+	if suppressed && retry {
+		e.Probe("handler.retriedAfterRefusal")
+		// the first answer was refused, the handler tried 5.00
+		if retrySuppressed && retryRefusals != retries {
+			e.Violate("C20.R1", "not-refused:class5", "No-Response=%d suppresses 5.xx, but the second SetResponse(5.00) was accepted", v)
+		}
+		if !retrySuppressed {
+			if retryRefusals != 0 {
+				e.Violate("C20.R1", "refused-although-of-interest:class5", "No-Response=%d does not suppress 5.xx, but SetResponse(5.00) after a refused %d.%02d was refused as well", v, code>>5, code&31)
+			}
+			got := 0
+			for _, m := range wire {
+				if m.Code == retryCode && bytes.Equal(m.Token, token) {
+					got++
+				}
+			}
+			if got != copies {
+				e.Violate("C20.R3", "response-after-refusal-lost", "after the refused %d.%02d the handler answered 5.00 (not suppressed by No-Response=%d): %d copies of the request, %d such responses with the request's token on the wire: %v", code>>5, code&31, v, copies, got, wire)
+			}
+			return
 		}
 	}
 	switch {
